@@ -8,6 +8,10 @@ import shutil
 import sys
 import warnings
 
+from . import reach
+
+reach.start()
+
 warnings.filterwarnings("ignore")
 
 
@@ -16,6 +20,13 @@ _FINAL = {}
 
 class InjectedFault(Exception):
     pass
+
+
+def _bye():
+    # the process "dies" here; what it executed so far is reported to the parent's reach table first
+    if os.environ.get("NSSMON_REACH_FILE"):
+        reach.dump(os.environ["NSSMON_REACH_FILE"])
+    os._exit(137)
 
 
 def _nonfinite(meta):
@@ -85,7 +96,7 @@ class WriteProbe:
                 return real(*a, **kw)
             nxt = probe.k + 1
             if probe.plan.get("kind") == "die-before" and probe.plan.get("at") == nxt:
-                os._exit(137)
+                _bye()
             if probe.plan.get("kind") == "raise" and probe.plan.get("at") == nxt:
                 raise InjectedFault(f"injected failure before write {nxt}")
             r = real(*a, **kw)
@@ -94,7 +105,7 @@ class WriteProbe:
             if probe.snapdir:
                 shutil.copyfile(probe.outfile, os.path.join(probe.snapdir, f"{nxt:03d}.fits"))
             if probe.plan.get("kind") == "die-after" and probe.plan.get("at") == nxt:
-                os._exit(137)
+                _bye()
             return r
 
         return w
@@ -191,6 +202,8 @@ def main():
         res["final_meta_nonfinite"] = _nonfinite(_FINAL["sim"].meta)
     except Exception:
         pass
+    if os.environ.get("NSSMON_REACH_FILE"):
+        reach.dump(os.environ["NSSMON_REACH_FILE"])
     print("C17CHILD " + json.dumps(res))
 
 
